@@ -134,6 +134,7 @@ func (c *c14) finish() {
 	c.out.OpsDone = c.step
 	c.out.NonTrivial = true
 	c.out.Sig = fmt.Sprintf("%x", fnv(strings.Join(c.resolved, ";")+fmt.Sprint(c.s.Samples)))
+	c.out.LogHash = fmt.Sprintf("%016x", fnv(strings.Join(c.resolved, "\n")+fmt.Sprint("|", c.checks, "|", len(c.m.recs), "|", c.rng)))
 	if c.out.Status == "" {
 		c.out.Status = "ok"
 	}
